@@ -1,6 +1,10 @@
 import IV.Lemmas.Rpm
+import IV.Lemmas.RpmRef
+import IV.Lemmas.RpmLex
 /-!
-C13 — package version comparison is RPM's ordering: order laws.
+C13 — package version comparison is RPM's ordering: agreement with RPM's `rpmvercmp()`
+(`vercmp_eq_reference`, against the transcription in Model/RpmRef.lean), the comparison as a
+lexicographic order on tokens (`vercmp_eq_lex`) and the order laws.
 
 Every theorem is about `IV.Rpm.vercmp` / `evrCmp` / the `pkg*` operators, the model of
 `_rpm_vercmp`, `rpm_version_compare` and `InstalledRpm`'s rich comparisons, for ALL strings
@@ -46,6 +50,115 @@ theorem vercmp_eq_trans (a b c : Str) (h1 : vercmp a b = 0) (h2 : vercmp b c = 0
   have t1 := vercmp_trans_le a b c (by omega) (by omega)
   have t2 := vercmp_trans_le c b a (by rw [vercmp_antisymm]; omega) (by rw [vercmp_antisymm]; omega)
   have := vercmp_antisymm a c; omega
+
+/-! ### first clause: the same answer as RPM's own comparison -/
+
+/-- what `vercmp_eq_reference` needs of an encoding of characters as code units: ASCII is kept,
+every other character becomes a non-empty run of units ≥ 128 (UTF-8: `utf8_encOk`) -/
+def EncOk (enc : Char → List Nat) : Prop :=
+  (∀ c : Char, c.toNat < 128 → enc c = [c.toNat]) ∧
+  (∀ c : Char, 128 ≤ c.toNat → enc c ≠ [] ∧ ∀ u ∈ enc c, 128 ≤ u)
+
+/-- `_rpm_vercmp` on two strings = RPM's `rpmvercmp()` (transcribed in Model/RpmRef.lean) on
+their code units, for every string (any length, any characters) and every such encoding -/
+theorem vercmp_eq_reference (enc : Char → List Nat)
+    (hlo : ∀ c : Char, c.toNat < 128 → enc c = [c.toNat])
+    (hhi : ∀ c : Char, 128 ≤ c.toNat → enc c ≠ [] ∧ ∀ u ∈ enc c, 128 ≤ u) (a b : Str) :
+    vercmp a b = Reference.rpmvercmp (a.flatMap enc) (b.flatMap enc) := by
+  have ra := rel_norm enc hlo hhi a
+  have rb := rel_norm enc hlo hhi b
+  have la := rel_length ra
+  have lb := rel_length rb
+  rw [norm_length] at la lb
+  unfold Reference.rpmvercmp
+  rw [vercmp_eq_loop a b ((a.flatMap enc).length + (b.flatMap enc).length + 1) (by omega),
+      loop_eq_cmpLoop _ _ _ _ _ ra rb]
+  split
+  · rename_i h; rw [h]; exact cmpLoop_refl _ _
+  · rfl
+
+/-- the reference's fuel is sufficient: RPM's answer is the loop's answer at ANY fuel above
+|a| + |b| (the `fuel = 0` branch of the transcription is never what decides) -/
+theorem reference_fuel (a b : Reference.Bytes) (F : Nat) (hF : a.length + b.length < F) :
+    Reference.rpmvercmp a b = Reference.cmpLoop F a b := by
+  unfold Reference.rpmvercmp
+  split
+  · rename_i h; rw [h, cmpLoop_refl]
+  · exact cmpLoop_fuel _ _ _ _ (by omega) hF
+
+example : Reference.rpmvercmp [49, 46, 48, 126, 114, 99] [49, 46, 48] =
+    Reference.cmpLoop 1000 [49, 46, 48, 126, 114, 99] [49, 46, 48] := by decide
+example : Reference.rpmvercmp [49, 46, 48, 126, 114, 99] [49, 46, 48] = -1 := by decide
+
+/-- UTF-8, written out on code points -/
+def utf8 (c : Char) : List Nat :=
+  let n := c.toNat
+  if n < 0x80 then [n]
+  else if n < 0x800 then [0xC0 + n / 0x40, 0x80 + n % 0x40]
+  else if n < 0x10000 then [0xE0 + n / 0x1000, 0x80 + (n / 0x40) % 0x40, 0x80 + n % 0x40]
+  else [0xF0 + n / 0x40000, 0x80 + (n / 0x1000) % 0x40, 0x80 + (n / 0x40) % 0x40, 0x80 + n % 0x40]
+
+/-- UTF-8 meets the hypotheses -/
+theorem utf8_encOk : EncOk utf8 := by
+  constructor
+  · intro c h; simp [utf8, h]
+  · intro c h
+    have h' : ¬ c.toNat < 128 := by omega
+    simp only [utf8, h', if_false]
+    split
+    · simp; omega
+    · split
+      · simp; omega
+      · simp; omega
+
+/-- `_rpm_vercmp` = RPM's comparison of the UTF-8 bytes -/
+theorem vercmp_eq_reference_utf8 (a b : Str) :
+    vercmp a b = Reference.rpmvercmp (a.flatMap utf8) (b.flatMap utf8) :=
+  vercmp_eq_reference utf8 utf8_encOk.1 utf8_encOk.2 a b
+
+example : "1é2".toList.flatMap utf8 = [49, 195, 169, 50] := by decide
+example : Reference.rpmvercmp ("1é2".toList.flatMap utf8) ("1.2".toList.flatMap utf8) = 0 := by decide
+example : Reference.rpmvercmp ("1.0~rc1".toList.flatMap utf8) ("1.0".toList.flatMap utf8) = -1 := by decide
+example : Reference.rpmvercmp ("1.0^git1".toList.flatMap utf8) ("1.0".toList.flatMap utf8) = 1 := by decide
+example : Reference.rpmvercmp ("1.010".toList.flatMap utf8) ("1.9".toList.flatMap utf8) = 1 := by decide
+example : Reference.rpmvercmp ("€a".toList.flatMap utf8) ("é.b".toList.flatMap utf8) = -1 := by decide
+/-- a different encoding (every non-ASCII character as the two units 255 255) is covered too -/
+example : EncOk (fun c => if c.toNat < 128 then [c.toNat] else [255, 255]) := by
+  constructor
+  · intro c h; simp [h]
+  · intro c h
+    have h' : ¬ c.toNat < 128 := by omega
+    simp [h']
+
+/-! ### the comparison as a lexicographic order on tokens (DESIGN Appendix A.1) -/
+
+/-- `_rpm_vercmp a b` is the lexicographic comparison of the token lists of the two normalised
+strings (`tokens`, `tokCmp`, `lexCmpTok`: Lemmas/RpmLex.lean) under the order
+`~ < end < ^ < alpha (string order) < num (length, then string order)` -/
+theorem vercmp_eq_lex (a b : Str) : vercmp a b = lexCmpTok (tokens (norm a)) (tokens (norm b)) := by
+  rw [vercmp_eq_loop a b (a.length + b.length + 1) (by omega), loop_eq_lex,
+      ← tokens_eq (norm a) _ (by rw [norm_length]; omega),
+      ← tokens_eq (norm b) _ (by rw [norm_length]; omega)]
+
+/-- the token cutter's fuel is sufficient: any fuel above the length gives the same tokens -/
+theorem tokens_fuel (s : Str) (F : Nat) (h : s.length < F) : tokens s = tokensF F s :=
+  tokens_eq s F h
+
+example : tokens "1.0~rc1".toList = tokensF 1000 "1.0~rc1".toList := by decide
+
+/-- the order on tokens ∪ {end} that is extended is a total preorder -/
+theorem tokCmp_total_preorder :
+    (∀ x, tokCmp x x = 0) ∧ (∀ x y, tokCmp x y = - tokCmp y x) ∧
+    (∀ x y z, tokCmp x y ≤ 0 → tokCmp y z ≤ 0 → tokCmp x z ≤ 0) :=
+  ⟨tokCmp_refl, tokCmp_antisymm, tokCmp_trans_le⟩
+
+example : tokens "1.0~rc1".toList =
+    [.num "1".toList, .num [], .tilde, .alpha "rc".toList, .num "1".toList] := by decide
+example : tokens (norm "1é007^b-".toList) = [.num "1".toList, .num "7".toList, .caret, .alpha "b".toList] := by decide
+example : lexCmpTok (tokens "1.0~rc1".toList) (tokens "1.0".toList) = -1 := by decide
+example : lexCmpTok (tokens "1.0^git1".toList) (tokens "1.0".toList) = 1 := by decide
+example : tokCmp none (some .caret) = -1 ∧ tokCmp (some .tilde) none = -1 ∧
+    tokCmp (some (.alpha "z".toList)) (some (.num [])) = -1 := by decide
 
 /-! ### epoch / version / release -/
 
